@@ -45,7 +45,7 @@ def subsets(items):
 
 
 def _cases_first_call(tier):
-    meshes = ['M1', 'M4', 'M6', 'M8'] if tier == 'quick' else ['M1', 'M2', 'M3', 'M4', 'M5', 'M6', 'M7', 'M8', 'M9', 'M10']
+    meshes = ['M1', 'M4', 'M6', 'M8', 'M14'] if tier == 'quick' else ['M1', 'M2', 'M3', 'M4', 'M5', 'M6', 'M7', 'M8', 'M9', 'M10', 'M14', 'M15']
     out = []
     for mesh in meshes:
         for start_index, fill, transposed, coords_as in itertools.product((0, 1), ('nan', 'fillattr'), (False, True), ('var', 'coord')):
@@ -102,6 +102,10 @@ def _cases_first_call(tier):
         nodes, faces = builders._lattice_mesh(222, 222)
         out.append({'family': 'ugrid', 'mesh': 'lattice-222x222', 'nodes': nodes, 'faces': faces, 'nt': 1, 'nk': 1,
                     'start_index': 0, 'fill': 'nan', 'transposed': False, 'supplied': [], 'edge_dim': 'declared', 'coords_as': 'var'})
+        # ... and one above 65536 nodes (node count squared exceeds uint32)
+        nodes, faces = builders._lattice_mesh(262, 262)
+        out.append({'family': 'ugrid', 'mesh': 'lattice-262x262', 'nodes': nodes, 'faces': faces, 'nt': 1, 'nk': 1,
+                    'start_index': 1, 'fill': 'fillattr', 'transposed': False, 'supplied': [], 'edge_dim': 'declared', 'coords_as': 'var'})
     return out
 
 
